@@ -221,6 +221,7 @@ class ModuleExtractor(object):
         self.all = None
         self.funcs = []
         self.dyndefs = set()
+        self.dynattr = False        # the module defines __getattr__ (PEP 562): any attribute of it may exist
         with open(path) as f:
             self.src = f.read()
         import warnings
@@ -491,6 +492,8 @@ class ModuleExtractor(object):
                 frec["flows"].append(flow.restricted())
             self.block(sub, node.body)
             self.bind_name(env, node.name, node.lineno)
+            if not env.calltime and env.kind == "module" and node.name == "__getattr__":
+                self.dynattr = True
             return
         if isinstance(node, ast.ClassDef):
             self.expr(env, node.decorator_list)
@@ -713,6 +716,8 @@ def extract(repo):
             data["all"][m] = ex.all
         data["funcs"].extend(ex.funcs)
         data["dyndefs"][m] = sorted(ex.dyndefs)
+        if ex.dynattr:
+            data.setdefault("dynattr", []).append(m)
     data["builtins"] = sorted(dir(builtins))
     # names every module object has before its body runs (probed on a scratch module of this interpreter)
     data["implicit"], data["pkgimplicit"] = implicit_names()
@@ -802,6 +807,7 @@ def to_tla(data, name, entry_sets, trace=False, specdir=None):
     L.append("Body == %s" % _fun((m, "D_Body_%d" % k) for k, m in enumerate(mods)))
     L.append("All == %s" % _fun((m, _set(data["all"][m])) for m in sorted(data["all"])))
     L.append("DynDefs == %s" % _fun((m, _set(data["dyndefs"][m])) for m in mods))
+    L.append("DynAttr == %s" % _set(data.get("dynattr", [])))
     funcs = data["funcs"]
     L.append("Funcs == %s" % _set(f["id"] for f in funcs))
     L.append("FMod == %s" % _fun((f["id"], _s(f["mod"])) for f in funcs))
